@@ -2,7 +2,7 @@
 # usage: scripts/regress_all.sh
 # Final regression of the machinery itself: every behaviour-preserving patch under refactors/ must leave all 20
 # checks silent, and every seeded change under seeded/ must make the check(s) named in its meta.json exit 1.
-cd /verif
+ROOT="$(cd "$(dirname "$0")/.." && pwd)"; cd "$ROOT"
 echo "### refactors"
 for x in refactors/*/; do
   x=${x%/}; out=$(scripts/refactor.sh $x/patch.diff 2>&1); echo "== $x :: $(echo "$out" | grep -c "^silent") silent; $(echo "$out" | grep -v "^silent" | tr "\n" " ")"
